@@ -340,12 +340,49 @@ Proof.
   - intros [= <-]. apply init_ok.
 Qed.
 
+Lemma inj_nodup_snd (l : dict) :
+  NoDup (map fst l) -> (forall a a' b, In (a, b) l -> In (a', b) l -> a = a') -> NoDup (map snd l).
+Proof.
+  induction l as [|[a b] r IH]; simpl; intros ND Hinj; constructor.
+  - intro Hin. apply in_map_iff in Hin. destruct Hin as [[a' b'] [Hb Hin]]. simpl in Hb. subst b'.
+    assert (a = a') by (eapply Hinj; [now left|right; exact Hin]). subst a'.
+    inversion ND; subst. apply H1. apply in_map_iff. now exists (a, b).
+  - apply IH.
+    + now inversion ND.
+    + intros x x' y H1 H2. eapply Hinj; right; eauto.
+Qed.
+
+Lemma OtoInv_vals o : OtoInv o -> NoDup (map snd (o_fwd o)).
+Proof.
+  intros [A B C]. apply inj_nodup_snd; trivial.
+  intros a a' b H1 H2. apply In_get in H1; trivial. apply In_get in H2; trivial.
+  eapply bij_inj; eauto.
+Qed.
+
+Lemma deepcopy_ok x : OtoInv x -> OtoInv (oto_deepcopy x).
+Proof.
+  intro H. pose proof (OtoInv_vals x H) as Vf. pose proof (OtoInv_vals _ (OtoInv_swap _ H)) as Vi.
+  destruct H as [A B C]. simpl in Vi.
+  assert (Nf : NoDup (map fst (flip (o_inv x)))) by now rewrite flip_fst.
+  assert (Ni : NoDup (map fst (flip (o_fwd x)))) by now rewrite flip_fst.
+  constructor; cbn [oto_deepcopy o_fwd o_inv]; trivial.
+  intros k v. rewrite <- (In_get_iff _ k v Nf), <- (In_get_iff _ v k Ni).
+  split; intro Hin.
+  - apply (proj2 (flip_In _ _ _)). apply (proj1 (flip_In _ _ _)) in Hin.
+    apply get_In. apply C. now apply In_get.
+  - apply (proj2 (flip_In _ _ _)). apply (proj1 (flip_In _ _ _)) in Hin.
+    apply get_In. apply C. now apply In_get.
+Qed.
+
 Lemma empty_ok : OtoInv (mkOto [] []).
 Proof. constructor; simpl; [constructor|constructor|]. intros k v. simpl. split; discriminate. Qed.
 
 Lemma hstep_ok h hop : Forall OtoInv h -> Forall OtoInv (fst (oto_hstep h hop)).
 Proof.
-  intro H. destruct hop as [u kvs|i s|i s op|ior i s j t|keys v]; simpl.
+  intro H. destruct hop as [u kvs|i s|i s op|ior i s j t|keys v|i s|i s j t]; simpl.
+  7: { destruct (nth_error h i); simpl; trivial. destruct (nth_error h j); simpl; trivial. }
+  6: { destruct (nth_error h i) as [o|] eqn:E; simpl; trivial. apply Forall_snoc; trivial.
+       apply deepcopy_ok. destruct s; simpl; [apply OtoInv_swap|]; eapply Forall_nth_error; eauto. }
   5: { destruct (existsb kv_unhashable (fromkeys_pairs keys v)); simpl; trivial.
        apply Forall_snoc; trivial. apply update_ok, empty_ok. }
   - destruct (oto_new u kvs) eqn:E; simpl; trivial.
